@@ -898,13 +898,11 @@ class XPathToken(Token[ta.XPathTokenType]):
             elif math.isinf(obj):
                 return str(obj).upper()
 
-            value = str(obj)
+            value, _, exponent = str(obj).partition('e')
             if '.' in value:
                 value = value.rstrip('0').rstrip('.')
-            if '+' in value:
-                value = value.replace('+', '')
-            if 'e' in value:
-                return value.upper()
+            if exponent:
+                return value + 'E' + exponent.replace('+', '')
             return value
 
         elif isinstance(obj, self.registry.function_token):
